@@ -129,8 +129,13 @@ Qed.
 
 (** * the theorems *)
 Definition trivP : list (id * marg) -> N -> Prop := fun _ _ => True.
-Lemma trivP_closed : closedP trivP.
+Definition trivV : bytes -> Prop := fun _ => True.
+Lemma trivP_closed c : closedP c trivV trivP.
 Proof. unfold closedP, trivP. repeat split. Qed.
+Lemma trivV_ok c toks : Vok c trivV /\ Forall (fun tok => forall n, trivV (skipn n tok)) toks.
+Proof.
+  unfold Vok, trivV. repeat split; try (intros; apply Forall_forall; intros; exact I).
+Qed.
 
 Theorem do_parse_total c0 toks : plain c0 = true -> valid c0 = true ->
   match do_parse c0 toks with OPanicked _ | OOutOfFuel => False | _ => True end.
@@ -138,10 +143,10 @@ Proof.
   intros Hp Hv. unfold do_parse. rewrite Hv. cbn [negb].
   unfold valid in Hv. cbn zeta in Hv.
   pose proof (tree_ok_of_valid _ _ Hp Hv) as Hok.
-  pose proof (gmw_safe trivP trivP_closed) as Hs.
+  pose proof (gmw_safe (fun _ _ => trivV) (fun _ _ => trivP) (fun c _ => trivP_closed c) trivV_ok) as Hs.
   assert (Hvt : forall c m, wfc c -> assert_app c = true -> entries_ok c (mt_args m) -> forall s, validate c m <> VPanic s).
   { intros c m _ Happ He s. apply validate_total; [apply assert_app_rel_wf; exact Happ|exact He]. }
-  specialize (Hs Hvt _ (build_self c0) toks ps_new Hok (G_ps_new (build_self c0) trivP I)).
+  specialize (Hs Hvt _ (build_self c0) toks ps_new Hok (G_ps_new (build_self c0) trivP trivV I)).
   destruct (get_matches_with _ (build_self c0) toks ps_new) as [st|e st|s]; cbn in Hs.
   - exact I.
   - destruct (is_set s_ignore_errors (build_self c0) && use_stderr (e_kind e)); exact I.
